@@ -26,44 +26,53 @@ def unhex(s):
 
 # ---------------------------------------------------------------- constants of __init__ / clear_data
 def consts():
+    """Attributes that __init__ sets and get_pred/clear_data use, read from the source (ast).
+    Anything unexpected is listed under "errors" (the check then fails closed) but never stops the run."""
     import esr.fitting.likelihood as L
-    src = textwrap.dedent(inspect.getsource(L.PanthLikelihood.__init__))
-    fn = ast.parse(src).body[0]
-    out = {}
-    for node in ast.walk(fn):
-        if isinstance(node, ast.Assign) and len(node.targets) == 1:
-            t = node.targets[0]
-            if isinstance(t, ast.Attribute) and isinstance(t.value, ast.Name) and t.value.id == "self":
-                if t.attr in ("delta_z", "min_nz", "data_x", "data_mask"):
-                    if not isinstance(node.value, ast.Constant):
-                        raise SystemExit("C19: self.%s is no longer a literal in __init__" % t.attr)
-                    if t.attr in out:
-                        raise SystemExit("C19: self.%s assigned twice in __init__" % t.attr)
-                    out[t.attr] = node.value.value
-                if t.attr == "xvar":
-                    out["xvar_src"] = ast.unparse(node.value)
-                if t.attr == "mu_const":
-                    out.setdefault("mu_const_src", []).append(ast.unparse(node.value))
-                if t.attr == "Hfid":
-                    out["Hfid_src"] = ast.unparse(node.value)
-            if isinstance(t, ast.Name) and t.id == "ww":
-                out["ww_src"] = ast.unparse(node.value)
-    for k in ("delta_z", "min_nz", "data_x", "data_mask", "xvar_src", "mu_const_src", "ww_src", "Hfid_src"):
-        if k not in out:
-            raise SystemExit("C19: could not find %s in PanthLikelihood.__init__" % k)
+    out = {"errors": []}
+    try:
+        src = textwrap.dedent(inspect.getsource(L.PanthLikelihood.__init__))
+        fn = ast.parse(src).body[0]
+        for node in ast.walk(fn):
+            if isinstance(node, ast.Assign) and len(node.targets) == 1:
+                t = node.targets[0]
+                if isinstance(t, ast.Attribute) and isinstance(t.value, ast.Name) and t.value.id == "self":
+                    if t.attr in ("delta_z", "min_nz", "data_x", "data_mask"):
+                        if not isinstance(node.value, ast.Constant):
+                            out["errors"].append("self.%s is no longer a literal in __init__" % t.attr)
+                            continue
+                        if t.attr in out:
+                            out["errors"].append("self.%s assigned twice in __init__" % t.attr)
+                        out[t.attr] = node.value.value
+                    if t.attr == "xvar":
+                        out["xvar_src"] = ast.unparse(node.value)
+                    if t.attr == "mu_const":
+                        out.setdefault("mu_const_src", []).append(ast.unparse(node.value))
+                    if t.attr == "Hfid":
+                        out["Hfid_src"] = ast.unparse(node.value)
+                if isinstance(t, ast.Name) and t.id == "ww":
+                    out["ww_src"] = ast.unparse(node.value)
+        for k in ("delta_z", "min_nz", "data_x", "data_mask", "xvar_src", "mu_const_src", "ww_src", "Hfid_src"):
+            if k not in out:
+                out["errors"].append("could not find %s in PanthLikelihood.__init__" % k)
+    except Exception as e:  # noqa: BLE001
+        out["errors"].append("__init__: %s: %s" % (type(e).__name__, e))
     # clear_data: exactly two stores, both None
-    csrc = textwrap.dedent(inspect.getsource(L.PanthLikelihood.clear_data))
-    cfn = ast.parse(csrc).body[0]
-    stores = []
-    for st in cfn.body:
-        if isinstance(st, ast.Expr) and isinstance(st.value, ast.Constant):
-            continue  # docstring
-        if (isinstance(st, ast.Assign) and len(st.targets) == 1 and isinstance(st.targets[0], ast.Attribute)
-                and isinstance(st.value, ast.Constant) and st.value.value is None):
-            stores.append(st.targets[0].attr)
-        else:
-            raise SystemExit("C19: unexpected statement in clear_data: " + ast.unparse(st))
-    out["clear_stores"] = sorted(stores)
+    try:
+        csrc = textwrap.dedent(inspect.getsource(L.PanthLikelihood.clear_data))
+        cfn = ast.parse(csrc).body[0]
+        stores = []
+        for st in cfn.body:
+            if isinstance(st, ast.Expr) and isinstance(st.value, ast.Constant):
+                continue  # docstring
+            if (isinstance(st, ast.Assign) and len(st.targets) == 1 and isinstance(st.targets[0], ast.Attribute)
+                    and isinstance(st.value, ast.Constant) and st.value.value is None):
+                stores.append(st.targets[0].attr)
+            else:
+                out["errors"].append("unexpected statement in clear_data: " + ast.unparse(st))
+        out["clear_stores"] = sorted(stores)
+    except Exception as e:  # noqa: BLE001
+        out["errors"].append("clear_data: %s: %s" % (type(e).__name__, e))
     out["mu_const"] = fhex(mu_const_value())
     return out
 
